@@ -162,9 +162,52 @@ func genClientIP(r *Repo) (string, error) {
 	// options.go: option constructor -> table appended to c.ipRanges
 	var opts []optFact
 	if of := r.Files["clientip/options.go"]; of != nil {
+		// helpers that append one of their own parameters to the ranges: name -> index of that parameter
+		paramIndex := func(fd *ast.FuncDecl, name string) int {
+			if fd.Type.Params == nil {
+				return -1
+			}
+			i := 0
+			for _, f := range fd.Type.Params.List {
+				for _, nm := range f.Names {
+					if nm.Name == name {
+						return i
+					}
+					i++
+				}
+			}
+			return -1
+		}
+		appendArg := func(ce *ast.CallExpr) (*ast.Ident, bool) {
+			if id, ok := ce.Fun.(*ast.Ident); ok && id.Name == "append" && ce.Ellipsis.IsValid() && len(ce.Args) == 2 {
+				a, _ := ce.Args[1].(*ast.Ident)
+				return a, true
+			}
+			return nil, false
+		}
+		helpers := map[string]int{}
+		for _, d := range of.Decls {
+			fd, ok := d.(*ast.FuncDecl)
+			if !ok || fd.Body == nil {
+				continue
+			}
+			ast.Inspect(fd.Body, func(n ast.Node) bool {
+				if ce, ok := n.(*ast.CallExpr); ok {
+					if a, ok := appendArg(ce); ok && a != nil {
+						if i := paramIndex(fd, a.Name); i >= 0 {
+							helpers[fd.Name.Name] = i
+						}
+					}
+				}
+				return true
+			})
+		}
 		for _, d := range of.Decls {
 			fd, ok := d.(*ast.FuncDecl)
 			if !ok || fd.Recv != nil || fd.Body == nil {
+				continue
+			}
+			if _, isHelper := helpers[fd.Name.Name]; isHelper {
 				continue
 			}
 			var found []string
@@ -173,8 +216,24 @@ func genClientIP(r *Repo) (string, error) {
 				if !ok {
 					return true
 				}
-				if id, ok := ce.Fun.(*ast.Ident); ok && id.Name == "append" && ce.Ellipsis.IsValid() && len(ce.Args) == 2 {
-					if a, ok := ce.Args[1].(*ast.Ident); ok {
+				if a, ok := appendArg(ce); ok {
+					if a != nil {
+						found = append(found, a.Name)
+					} else {
+						found = append(found, "?")
+					}
+					return true
+				}
+				// a call of an appending helper: the table is the argument bound to its appended parameter
+				name := ""
+				switch f := ce.Fun.(type) {
+				case *ast.Ident:
+					name = f.Name
+				case *ast.SelectorExpr:
+					name = f.Sel.Name
+				}
+				if i, ok := helpers[name]; ok && i < len(ce.Args) {
+					if a, ok := ce.Args[i].(*ast.Ident); ok {
 						found = append(found, a.Name)
 					} else {
 						found = append(found, "?")
